@@ -29,30 +29,41 @@ inductive Defect where
   /-- a conditional gate controlled by a classical bit with index ≥ `nr_qbits` (c-QASM names only
   `nr_qbits` classical bits) -/
   | condControlGeNq
-  /-- gate term outside the fragment the theorems cover (`Composite`, `Loop`) -/
-  | unsupportedGate
+  /-- a `Composite` / `Loop` body that is itself malformed: a sub-gate on a local index ≥ the composite's
+  width, with the wrong number of operands or a repeated one (`Composite::add_gate` validates nothing), or a
+  composite of width 0 -/
+  | badComposite
 deriving DecidableEq, Repr
 
 def Defect.tag : Defect → String
   | .arity => "arity" | .dupQubits => "dup-qubits" | .cbitGe64 => "cbit-ge-64" | .controlsGt64 => "controls-gt-64"
   | .measureAllLen => "measure-all-len" | .ctrlBetweenTargets => "ctrl-between-targets"
   | .resetAllNoQubits => "resetall-no-qubits" | .emptyBarrier => "empty-barrier" | .condControlGeNq => "cond-control-ge-nq"
-  | .unsupportedGate => "unsupported-gate"
+  | .badComposite => "bad-composite"
 
 variable {P : Type}
-
-/-- the gate terms a `Circuit` can hold that the theorems cover: library gates (the named controlled
-gates are `C …`) and `Kron` of them -/
-def gateOK : GateTerm P → Bool
-  | .C g => gateOK g
-  | .Kron g0 g1 => gateOK g0 && gateOK g1
-  | .Composite .. | .Loop .. => false
-  | _ => true
 
 def hasDup : List Nat → Bool
   | [] => false
   | x :: xs => xs.contains x || hasDup xs
 
+mutual
+/-- the gate terms a `Circuit` can hold, with well-formed bodies: library gates (the named controlled gates
+are `C …`), `Kron`, and `Composite` / `Loop` of positive width whose sub-gates are placed on distinct local
+indices below the width, each with its arity -/
+def gateOK : GateTerm P → Bool
+  | .C g => gateOK g
+  | .Kron g0 g1 => gateOK g0 && gateOK g1
+  | .Composite _ n ops => decide (0 < n) && opsOK n ops
+  | .Loop _ _ _ n body => decide (0 < n) && opsOK n body
+  | _ => true
+def opsOK (n : Nat) : OpList P → Bool
+  | .nil => true
+  | .cons g bits rest =>
+    gateOK g && decide (Gate.nrBits g = bits.length) && !hasDup bits && bits.all (fun b => decide (b < n)) && opsOK n rest
+end
+
+mutual
 /-- LaTeX: every `C g` inside the term, with the operands it receives, has its control strictly on one
 side of all its targets -/
 def ctrlOK : GateTerm P → List Nat → Bool
@@ -63,10 +74,16 @@ def ctrlOK : GateTerm P → List Nat → Bool
   | .C _, _ => false
   | .CX, [c, t] | .CY, [c, t] | .CZ, [c, t] => c != t
   | .Kron g0 g1, bits => ctrlOK g0 (bits.take (Gate.nrBits g0)) && ctrlOK g1 (bits.drop (Gate.nrBits g0))
+  | .Composite _ _ ops, bits => ctrlOKOps ops bits
+  | .Loop _ _ _ _ body, bits => ctrlOKOps body bits
   | _, _ => true
+def ctrlOKOps : OpList P → List Nat → Bool
+  | .nil, _ => true
+  | .cons g sb rest, bits => ctrlOK g (sb.map fun b => bits.getD b 0) && ctrlOKOps rest bits
+end
 
 def gateDefects (g : GateTerm P) (bits : List Nat) : List Defect :=
-  (if gateOK g then [] else [.unsupportedGate]) ++
+  (if gateOK g then [] else [.badComposite]) ++
   (if Gate.nrBits g ≠ bits.length then [.arity] else []) ++
   (if hasDup bits then [.dupQubits] else []) ++
   (if Gate.nrBits g = bits.length ∧ !hasDup bits ∧ !ctrlOK g bits then [.ctrlBetweenTargets] else [])
@@ -92,13 +109,13 @@ def Defect.exec : Defect → Bool
   | .ctrlBetweenTargets | .resetAllNoQubits | .emptyBarrier | .condControlGeNq => false
   | _ => true
 def Defect.latex : Defect → Bool
-  | .dupQubits | .controlsGt64 | .ctrlBetweenTargets | .resetAllNoQubits | .emptyBarrier | .unsupportedGate => true
+  | .dupQubits | .controlsGt64 | .ctrlBetweenTargets | .resetAllNoQubits | .emptyBarrier | .badComposite => true
   | _ => false
 def Defect.openQasm : Defect → Bool
-  | .arity | .controlsGt64 | .measureAllLen | .unsupportedGate => true
+  | .arity | .controlsGt64 | .measureAllLen | .badComposite => true
   | _ => false
 def Defect.cQasm : Defect → Bool
-  | .arity | .controlsGt64 | .condControlGeNq | .unsupportedGate => true
+  | .arity | .controlsGt64 | .condControlGeNq | .badComposite => true
   | _ => false
 
 def circDefects (c : Circ P) : List Defect := c.ops.flatMap (opDefects c.nq)
@@ -110,7 +127,7 @@ def ExecWF (c : Circ P) (shots : Nat) : Bool :=
 
 /-- **`WellFormed`**: arity matches, operands distinct, `measure_all` lists exactly `nr_qbits` bits,
 classical bits < 64, at most 64 control bits, shots ≥ 1, drawable (controls outside their targets,
-`reset_all` only with qubits, no empty barrier), c-QASM-nameable control bits, gate terms inside the covered fragment -/
+`reset_all` only with qubits, no empty barrier), c-QASM-nameable control bits, well-formed composite bodies -/
 def WellFormed (c : Circ P) (shots : Nat) : Bool :=
   decide (1 ≤ shots) && decide (c.nq < 64) && c.ops.all fun op => (opDefects c.nq op).isEmpty
 
